@@ -39,13 +39,13 @@ def sources(pid, tier, seed, rundir, mcres):
     n = 1 if q else 8
     R = lambda driver, count, maxops=25, k=0: ("random", driver, count * n, maxops, seed * 7919 + k)
     out = []
-    mix = [R("engine", 120, 25, 1), R("liq", 120, 30, 2), R("fluct", 40, 25, 3), R("multi", 30, 25, 4)]
+    mix = [R("engine", 120, 25, 1), R("liq", 120, 30, 2), R("fluct", 40, 25, 3), R("multi", 30, 25, 4), R("gates", 40, 30, 8)]
     if pid == "C01":
         out = [R("vamm", 600, 30, 1), R("engine", 80, 25, 2), R("liq", 60, 30, 3)]
     elif pid in ("C02", "C03", "C04", "C05", "C10", "C12"):
         out = mix + [R("engine-native", 60, 25, 5), R("caps", 30, 25, 6)] + ([R("liqwin", 80, 25, 7)] if pid in ("C02", "C03") else [])
     elif pid == "C07":
-        out = [R("liq", 300, 30, 1), R("engine", 80, 25, 2), R("engine-realfeed", 40, 20, 3), R("fluct", 40, 25, 4), R("exactfund", 60, 25, 5), R("liqwin", 150, 25, 6)]
+        out = [R("liq", 300, 30, 1), R("engine", 80, 25, 2), R("engine-realfeed", 40, 20, 3), R("fluct", 80, 25, 4), R("exactfund", 60, 25, 5), R("liqwin", 150, 25, 6), R("gates", 40, 30, 7)]
         for name, scns in (("c14gates", gen.c14(tier, seed)),):
             path = os.path.join(rundir, name + ".scn.ndjson")
             with open(path, "w") as f:
@@ -61,7 +61,7 @@ def sources(pid, tier, seed, rundir, mcres):
     elif pid == "C11":
         out = [R("funding", 200, 30, 1), R("engine", 80, 25, 2), R("engine-realfeed", 60, 25, 3)]
     elif pid == "C14":
-        out = [R("engine", 40, 20, 1)]
+        out = [R("engine", 40, 20, 1), R("gates", 200, 30, 2)]
     elif pid == "C15":
         out = [R("fluct", 300, 30, 1), R("vamm", 80, 30, 2)]
     elif pid == "C17":
@@ -69,7 +69,7 @@ def sources(pid, tier, seed, rundir, mcres):
     elif pid == "C18":
         out = [R("vamm", 200, 30, 1), R("feed", 200, 30, 2), R("engine", 40, 25, 3)]
     elif pid == "C20":
-        out = [R("caps", 200, 25, 1), R("engine", 40, 25, 2)]
+        out = [R("caps", 200, 25, 1), R("engine", 40, 25, 2), R("gates", 80, 30, 3)]
     # static / generated scenario files
     for name, scns in gen.for_property(pid, tier, seed):
         path = os.path.join(rundir, name + ".scn.ndjson")
